@@ -165,4 +165,70 @@ theorem placementSkip_spec (n : Int) (ex : List SEvent) (time : Int) (p : Placem
     have h1 := ‹((loopEv _ _).fst _ _).down›
     exact ⟨h, h1.2⟩
 
+
+/-- A quiet `Task` call on one task, possibly followed by non-`.finish` log entries (field form). -/
+theorem AP.quietLog {ex : List SEvent} {n : Int} (s s' : SimS) (t : TaskId) (c : TaskCall) (g : GraphS) (x : TaskS)
+    (h : AP RunOK ex s ∧ s.now = n) (hg : s.graphs[t.g]? = some g) (hx : g.task? t.t = some x)
+    (hc : c.isQuiet = true)
+    (hp : s'.pools = s.pools) (hgr : s'.graphs = s.graphs.setIfInBounds t.g (g.setTask t.t (x.call c).1))
+    (hn : s'.now = s.now)
+    (hl : ∃ es, s'.log.toList = s.log.toList ++ es ∧ ∀ e ∈ es, ∀ t τ, e ≠ LogE.finish t τ)
+    (hq : s'.queue = s.queue) (hfu : s'.future = s.future) (hns : s'.nextSched = s.nextSched)
+    (hid : s'.nextEid = s.nextEid) (ha : s'.allGraphs = s.allGraphs) (hj : s'.jobs = s.jobs)
+    (hlr : s'.loaderReleased = s.loaderReleased) : AP RunOK ex s' ∧ s'.now = n := by
+  refine ⟨AP.step s s' h.1 hp ?_ hn hl (by rw [hq]; exact fun _ h' _ => h') (by rw [hfu, hns]; exact fun _ h' => h')
+    (by rw [hid]; exact Nat.le_refl _) ha hj (h.1.loaderOf hg s' hlr), by rw [hn]; exact h.2⟩
+  rw [hgr]
+  exact TRel.setGraph _ _ g _ hg (RFrame.setTask g _ x _ hx (call_TR x c (h.1.allPre _ g hg _ x hx) hc))
+
+theorem AP.quietLogW {ex : List SEvent} {n : Int} (s s' : SimS) (t : TaskId) (c : TaskCall) (g : GraphS) (x : TaskS)
+    (h : AP RunOK ex s ∧ s.now = n) (hg : s.graphs[t.g]? = some g) (hx : g.task? t.t = some x)
+    (hc : c.isQuiet = true)
+    (hp : s'.pools = s.pools) (hgr : s'.graphs = s.graphs.setIfInBounds t.g (g.setTask t.t (x.call c).1))
+    (hn : s'.now = s.now)
+    (hl : ∃ es, s'.log.toList = s.log.toList ++ es ∧ ∀ e ∈ es, ∀ t τ, e ≠ LogE.finish t τ)
+    (hq : s'.queue = s.queue) (hfu : s'.future = s.future) (hns : s'.nextSched = s.nextSched)
+    (hid : s'.nextEid = s.nextEid) (ha : s'.allGraphs = s.allGraphs) (hj : s'.jobs = s.jobs)
+    (hlr : s'.loaderReleased = s.loaderReleased) : WInv s' :=
+  (AP.quietLog s s' t c g x h hg hx hc hp hgr hn hl hq hfu hns hid ha hj hlr).1.weak
+
+/-- Closes goals about the state after an unfolded quiet `taskCall` (and `logE`). -/
+macro "quiet_close" : tactic => `(tactic| first
+  | (have h := ‹AP RunOK _ _ ∧ _›
+     exact AP.quietLog _ _ _ _ _ _ h ‹_› ‹_› rfl rfl rfl rfl (log_push_ext _ _ rfl) rfl rfl rfl rfl rfl rfl rfl)
+  | (have h := ‹AP RunOK _ _ ∧ _›
+     exact AP.quietLog _ _ _ _ _ _ h ‹_› ‹_› rfl rfl rfl rfl (log_same_ext _) rfl rfl rfl rfl rfl rfl rfl)
+  | (have h := ‹AP RunOK _ _ ∧ _›
+     exact AP.quietLogW _ _ _ _ _ _ h ‹_› ‹_› rfl rfl rfl rfl (log_push_ext _ _ rfl) rfl rfl rfl rfl rfl rfl rfl)
+  | (have h := ‹AP RunOK _ _ ∧ _›
+     exact AP.quietLogW _ _ _ _ _ _ h ‹_› ‹_› rfl rfl rfl rfl (log_same_ext _) rfl rfl rfl rfl rfl rfl rfl))
+
+/-- After `mkEvent` (spec `mkEvent_spec'`) the id of the fresh event is kept in `future` / `nextSched`. -/
+macro "efadd_close" : tactic => `(tactic|
+  (have h := ‹(AP RunOK _ _ ∧ _) ∧ _ ∧ _ ∧ _ ∧ _ ∧ _›
+   exact ⟨AP.efAdd _ _ h.1.1 _ h.2.2.2.2.1 h.2.2.2.2.2 rfl rfl rfl rfl (fun _ h' _ => h')
+     (by first | exact EF_set _ _ _ _ | exact EF_some _ _ _) rfl rfl rfl rfl rfl, h.1.2⟩))
+
+theorem noFin_single (e : SEvent) (a : Nat) (h : e.ev.etype = a) (ha : a ≠ ET.taskFinished) : NoFin [e] := by
+  intro e' he'
+  simp only [List.mem_singleton] at he'
+  subst he'; rw [h]; exact ha
+
+theorem placementEvents_spec (n : Int) (ex : List SEvent) (time : Int) (p : PlacementS) :
+    ⦃RA n ex⦄ placementEvents time p
+    ⦃post⟨fun r s => ⌜(AP RunOK ex s ∧ s.now = n) ∧ NoFin r⌝, fun _ s => ⌜WInv s⌝⟩⦄ := by
+  have h_mk := mkEvent_spec' n ex
+  have h_skip := placementSkip_spec n ex
+  have h_edit := editEvent_spec n ex
+  have h_heap := reheapify_spec n ex
+  mvcgen [placementEvents, getGraph, setGraph, getTask, taskCall, raiseTask, logE, h_mk, h_skip, h_edit, h_heap]
+  all_goals first
+    | ev_close
+    | quiet_close
+    | (intro _; trivial)
+    | (refine ⟨by efadd_close, ?_⟩
+       have h := ‹(AP RunOK _ _ ∧ _) ∧ _ ∧ _ ∧ _ ∧ _ ∧ _›
+       exact noFin_single _ _ h.2.1 (by decide))
+    | (refine ⟨by quiet_close, Or.inl ⟨_, AList.mem_of_get?_some _ _ _ ‹_›⟩⟩)
+
 end ErdosVerif.Model.Sim
